@@ -67,6 +67,9 @@ def random_spec(rng, name):
         kw["nstates"] = int(rng.integers(3, 7))
     if name == "subotnik2d":
         kw["mass"] = [2000.0, 2000.0]
+        if rng.random() < 0.6:
+            # non-default parameters (the defaults have d == g: a factor d written for g goes unnoticed there)
+            kw.update(d=float(rng.uniform(0.1, 0.5)), g=float(rng.uniform(0.1, 0.5)), f=float(rng.uniform(0.02, 0.08)), w=float(rng.uniform(0.5, 3.0)))
     return {"name": name, "kwargs": kw}
 
 
@@ -353,7 +356,7 @@ def _entry_correspondence(ctx):
         mz = mk("modelz", nstates=N, eps=eps)
         jobs.append((["mv", 14, fb(eps), fb(0), fb(0), k, N, fb(xs)], mz, (k - 1, k - 1), "modelz"))
     # the two multi-dimensional diabatic models, every entry of V and of every gradient component
-    md_lines, md_keep = [], []
+    md_lines, md_keep, md_specs = [], [], []
     for _ in range(ctx.budget(12, 600)):
         a, b, c, d, f, g, w = [float(v) for v in (rng.uniform(0.1, 0.3), rng.uniform(0.3, 0.9), rng.uniform(0.005, 0.03), rng.uniform(0.1, 0.5),
                                                   rng.uniform(0.02, 0.08), rng.uniform(0.1, 0.5), rng.uniform(0.5, 3.0))]
@@ -361,25 +364,32 @@ def _entry_correspondence(ctx):
         from mudslide.models.scattering_models import Subotnik2D
         m = Subotnik2D(a=a, b=b, c=c, d=d, f=f, g=g, w=w)
         md_lines.append(["sub2d"] + [fb(v) for v in (a, b, c, d, f, g, w, np.pi * 0.5, x, y)])
+        md_specs.append({"name": "subotnik2d", "kwargs": dict(a=a, b=b, c=c, d=d, f=f, g=g, w=w, mass=[2000.0, 2000.0]), "x": [x, y]})
         V = np.asarray(m.V(np.array([x, y]))); dV = np.asarray(m.dV(np.array([x, y])))
         md_keep.append(("sub2d", [V[0, 0], V[1, 1], V[0, 1], dV[0, 0, 0], dV[0, 1, 1], dV[0, 0, 1], dV[1, 1, 1]],
                         [dV[1, 0, 0], dV[1, 0, 1], V[1, 0] - V[0, 1], dV[0, 1, 0] - dV[0, 0, 1]]))
         mv = mudslide.models.scattering_models["vibronic"]() if "vibronic" in mudslide.models.scattering_models else None
         if mv is not None:
             X = rng.normal(size=5) * 1.5
+            md_specs.append(None)
             md_lines.append(["vib", fb(mv.E1), fb(mv.E2), fb(mv.lamb), fb(mv.r0sqrtw5mh)] + fbs(mv.om) + fbs(mv.k1) + fbs(mv.k2) + fbs(mv.An) +
                             fbs(X[:4]) + [fb(X[4])])
             V = np.asarray(mv.V(X)); dV = np.asarray(mv.dV(X))
             md_keep.append(("vib", [V[0, 0], V[1, 1], V[0, 1]] + [dV[i, 0, 0] for i in range(4)] + [dV[i, 1, 1] for i in range(4)] +
                             [dV[4, 0, 0], dV[4, 0, 1]],
                             [dV[4, 1, 1] - dV[4, 0, 0], V[1, 0] - V[0, 1]] + [dV[i, 0, 1] for i in range(4)]))
-    for (label, want, zeros), o in zip(md_keep, ctx.model.run(md_lines)):
+    for (label, want, zeros), o, sp_ in zip(md_keep, ctx.model.run(md_lines), md_specs):
         got = [unfb(t) for t in o[1:1 + len(want)]]
         ctx.case(("entry", label), {"op": label, "impl": want[:4], "model": got[:4]})
         ctx.count("entry:" + label)
         sc = max(max(abs(v) for v in want), 1e-12)
         if o[0] != "ok" or not allclose(got, want, sc, rtol=1e-11):
             ctx.corr_mismatch("mv." + label, {}, "entries: model %r impl %r" % (got, want))
+            if sp_ is not None:
+                # failing-input search: the model oracle (finite differences of V against dV, ...) on these very parameters
+                ok_, obs_, req_, text_ = oracle_model(sp_)
+                if not ok_:
+                    ctx.oracle_fail("model-inconsistent:" + sp_["name"], "model", sp_, obs_, req_, text_)
         if any(abs(z) > 1e-14 * sc for z in zeros):
             ctx.corr_mismatch("mv." + label + ".structure", {}, "entries the model has as zero / equal are %r" % (zeros,))
     outs = ctx.model.run([j[0] for j in jobs])
